@@ -365,7 +365,12 @@ def _strip_len(t):
     return tm.rebuild(t, f)
 
 
+def rule_nonetruth(ctx):
+    yield from common.rule_nonetruth(ctx, "C13.NONETRUTH", ("util.py", "chord.py", "segment.py", "hierarchy.py", "sonify.py"))
+
+
 RULES = [
+    ("C13.NONETRUTH", 5, rule_nonetruth),
     ("C13.SAMPLETWIN", 8, common.shared("c16", "rule_sampletwin", "C13.SAMPLETWIN")),
     ("C13.LOOPCOMPLETE", 2, rule_loopcomplete),
     ("C13.PADSPAN", 4, rule_padspan),
